@@ -13,7 +13,7 @@
   definitions, for EVERY limb count; `GenShifts.nats l` is `l.map BitVec.toNat` (the limbs as the model's words).
 -/
 import CB.Props.C05
-import CB.Lemmas.GenShiftsVar
+import CB.Lemmas.GenShiftsLadder
 namespace CB.P05G
 open CB CB.Shift CB.Bits
 
@@ -174,5 +174,81 @@ theorem src_uint_shr_vartime_exact (a : List (BitVec 64)) (s : BitVec 32) (hL : 
 example : Gen.Shifts.Uint.overflowing_shl_vartime 3 [~~~0#64, 1#64, 0#64] 65#32 = ([0#64, ~~~0#64 <<< 1, 3#64], ~~~0#64) := by decide
 example : Gen.Shifts.Uint.overflowing_shr_vartime 3 [0#64, 1#64, ~~~0#64] 65#32 = ([1#64 <<< 63, ~~~0#64 >>> 1, 0#64], ~~~0#64) := by decide
 example : Gen.Shifts.Uint.overflowing_shl_vartime 3 [1#64, 1#64, 1#64] 192#32 = ([0#64, 0#64, 0#64], 0#64) := by decide
+
+/-! ## T05.G4 — the SOURCE of `Uint::select`, of the constant-time ladder `overflowing_shl` / `overflowing_shr` and of the
+wrappers `shl`, `shr`, `shl_vartime`, `shr_vartime`, `wrapping_sh{l,r}[_vartime]`
+
+The model carries panics as an outer `Option`; the translation of `.expect(msg)` is the value component of the pair, of
+`.unwrap_or(def)` the `Uint::select(&def, &value, is_some)` it is defined as.  `model = some (translated ..)` therefore says
+two things: no `expect` reached by the source can fail, and the values agree.  `a ≠ []` is `LIMBS ≥ 1`. -/
+
+/-- the hand-written model of `Uint::select`, of the ladder and of the wrapping forms (what T05.2 is proved about) IS the
+    translated source, for every limb count and EVERY shift amount -/
+theorem ladder_model_is_translated_source (a b : List (BitVec 64)) (c : BitVec 64) (hab : a.length = b.length) (hne : a ≠ [])
+    (s : BitVec 32) (hL : 64 * a.length < 2 ^ 32) :
+    uselect (GenShifts.nats a) (GenShifts.nats b) c.toNat = GenShifts.nats (Gen.Shifts.Uint.select a.length a b c) ∧
+    overflowingShl (GenShifts.nats a) s.toNat =
+      some (GenShifts.nats (Gen.Shifts.Uint.overflowing_shl a.length a s).1, (Gen.Shifts.Uint.overflowing_shl a.length a s).2.toNat) ∧
+    overflowingShr (GenShifts.nats a) s.toNat =
+      some (GenShifts.nats (Gen.Shifts.Uint.overflowing_shr a.length a s).1, (Gen.Shifts.Uint.overflowing_shr a.length a s).2.toNat) ∧
+    wrappingShlU (GenShifts.nats a) s.toNat = some (GenShifts.nats (Gen.Shifts.Uint.wrapping_shl a.length a s)) ∧
+    wrappingShrU (GenShifts.nats a) s.toNat = some (GenShifts.nats (Gen.Shifts.Uint.wrapping_shr a.length a s)) ∧
+    wrappingShlVartimeU (GenShifts.nats a) s.toNat = GenShifts.nats (Gen.Shifts.Uint.wrapping_shl_vartime a.length a s) ∧
+    wrappingShrVartimeU (GenShifts.nats a) s.toNat = GenShifts.nats (Gen.Shifts.Uint.wrapping_shr_vartime a.length a s) :=
+  ⟨GenShifts.uselect_bridge a b c hab, GenShifts.overflowingShl_bridge a hne s hL, GenShifts.overflowingShr_bridge a hne s hL,
+   GenShifts.wrappingShlU_bridge a hne s hL, GenShifts.wrappingShrU_bridge a hne s hL,
+   GenShifts.wrappingShlVartimeU_bridge a s hL, GenShifts.wrappingShrVartimeU_bridge a s hL⟩
+
+/-- the TRANSLATED ladder IS the TRANSLATED variable-time shift (pair of value and mask), every limb count, every shift -/
+theorem src_ladder_eq_vartime (a : List (BitVec 64)) (hne : a ≠ []) (s : BitVec 32) (hL : 64 * a.length < 2 ^ 32) :
+    Gen.Shifts.Uint.overflowing_shl a.length a s = Gen.Shifts.Uint.overflowing_shl_vartime a.length a s ∧
+    Gen.Shifts.Uint.overflowing_shr a.length a s = Gen.Shifts.Uint.overflowing_shr_vartime a.length a s :=
+  ⟨GenShifts.oshl_eq_shlv a hne s hL, GenShifts.oshr_eq_shrv a hne s hL⟩
+
+/-- the TRANSLATED `Uint::shl` / `shl_vartime` / `shr` / `shr_vartime` for an in-range shift: `(val a · 2^s) mod B^LIMBS`,
+    `val a / 2^s`; for `s ≥ BITS` the `is_some` mask their `expect` asserts is false (the source panics) -/
+theorem src_uint_shl_shr_exact (a : List (BitVec 64)) (hne : a ≠ []) (s : BitVec 32) (hL : 64 * a.length < 2 ^ 32) :
+    (s.toNat < 64 * a.length →
+      val (GenShifts.nats (Gen.Shifts.Uint.shl a.length a s)) = (val (GenShifts.nats a) * 2 ^ s.toNat) % B ^ a.length ∧
+      val (GenShifts.nats (Gen.Shifts.Uint.shl_vartime a.length a s)) = (val (GenShifts.nats a) * 2 ^ s.toNat) % B ^ a.length ∧
+      val (GenShifts.nats (Gen.Shifts.Uint.shr a.length a s)) = val (GenShifts.nats a) / 2 ^ s.toNat ∧
+      val (GenShifts.nats (Gen.Shifts.Uint.shr_vartime a.length a s)) = val (GenShifts.nats a) / 2 ^ s.toNat) ∧
+    (Gen.Shifts.Uint.overflowing_shl a.length a s).2 = GenBits.ofBool (decide (s.toNat < 64 * a.length)) ∧
+    (Gen.Shifts.Uint.overflowing_shr a.length a s).2 = GenBits.ofBool (decide (s.toNat < 64 * a.length)) := by
+  have ⟨ml, el, _, _⟩ := src_uint_shl_vartime_exact a s hL
+  have ⟨mr, er, _, _⟩ := src_uint_shr_vartime_exact a s hL
+  refine ⟨fun h => ?_, ?_, ?_⟩
+  · rw [GenBits.shl_eq, GenBits.shr_eq, GenBits.shl_vartime_eq, GenBits.shr_vartime_eq, GenShifts.oshl_eq_shlv a hne s hL,
+      GenShifts.oshr_eq_shrv a hne s hL]
+    exact ⟨el h, el h, er h, er h⟩
+  · rw [GenShifts.oshl_eq_shlv a hne s hL]; exact ml
+  · rw [GenShifts.oshr_eq_shrv a hne s hL]; exact mr
+
+/-- the TRANSLATED wrapping shifts (constant-time and variable-time): `(val a · 2^s) mod B^LIMBS` resp. `val a / 2^s` for EVERY
+    shift amount (0 once `s ≥ BITS`), never a panic -/
+theorem src_uint_wrapping_shift_exact (a : List (BitVec 64)) (hne : a ≠ []) (s : BitVec 32) (hL : 64 * a.length < 2 ^ 32) :
+    val (GenShifts.nats (Gen.Shifts.Uint.wrapping_shl a.length a s)) = (val (GenShifts.nats a) * 2 ^ s.toNat) % B ^ a.length ∧
+    val (GenShifts.nats (Gen.Shifts.Uint.wrapping_shl_vartime a.length a s)) = (val (GenShifts.nats a) * 2 ^ s.toNat) % B ^ a.length ∧
+    val (GenShifts.nats (Gen.Shifts.Uint.wrapping_shr a.length a s)) = val (GenShifts.nats a) / 2 ^ s.toNat ∧
+    val (GenShifts.nats (Gen.Shifts.Uint.wrapping_shr_vartime a.length a s)) = val (GenShifts.nats a) / 2 ^ s.toNat := by
+  have hne' : GenShifts.nats a ≠ [] := by
+    cases a with
+    | nil => exact absurd rfl hne
+    | cons _ _ => simp [GenShifts.nats]
+  have hn : 64 * (GenShifts.nats a).length < TWO32 := by rw [GenShifts.nats_length]; simpa [TWO32_def] using hL
+  have ⟨l1, l2, _⟩ := P05.wrapping_shl_spec (GenShifts.nats_WF a) hne' hn s.isLt
+  have ⟨r1, r2, _⟩ := P05.wrapping_shr_spec (GenShifts.nats_WF a) hne' hn s.isLt
+  rw [GenShifts.nats_length] at l2
+  rw [GenShifts.wrappingShlU_bridge a hne s hL] at l1
+  rw [GenShifts.wrappingShrU_bridge a hne s hL] at r1
+  have l1' := Option.some.inj l1
+  have r1' := Option.some.inj r1
+  refine ⟨by rw [l1']; exact l2, ?_, by rw [r1']; exact r2, ?_⟩
+  · rw [← GenShifts.wrappingShlVartimeU_bridge a s hL]; exact l2
+  · rw [← GenShifts.wrappingShrVartimeU_bridge a s hL]; exact r2
+
+/-- non-vacuity / evaluation: the translated ladder runs on a 3-limb value (width 192, not a power of two) -/
+example : Gen.Shifts.Uint.overflowing_shl 3 [~~~0#64, 1#64, 0#64] 65#32 = ([0#64, ~~~0#64 <<< 1, 3#64], ~~~0#64) := by decide
+example : Gen.Shifts.Uint.wrapping_shr 3 [0#64, 1#64, ~~~0#64] 200#32 = [0#64, 0#64, 0#64] := by decide
 
 end CB.P05G
